@@ -512,6 +512,7 @@ func dispatchOps(thorough bool) []cop {
 		{kind: "api:sub", filters: []string{"a/+", "b"}, qoss: []byte{2, 0}},
 		{kind: "api:unsub", filters: []string{"a"}},
 		{kind: "api:unsub", filters: []string{"a/+"}},
+		{kind: "api:unsub", filters: []string{"never/subscribed", "a", "b"}},
 		{kind: "srv:suback"}, {kind: "srv:subfail"}, {kind: "srv:unsuback"},
 		{kind: "srv:pub", topic: "a", qos: 0, payload: "m0"},
 		{kind: "srv:pub", topic: "a/c", qos: 0, payload: "m1"},
